@@ -165,7 +165,7 @@ def scenarios(draw, *, max_machines=6, max_obs=4, max_nodes=6,
               modes=('roomy', 'band'), delays=False, units=False,
               adversary=False, delay_model=False, min_obs=1,
               start_gaps=(0, 0, 0, 1, 1, 2, 3, 5, 10), max_duration=6,
-              few_machines=False, piled_plans=False, overlap=False, limit_binds=False, unsorted=False):
+              few_machines=False, piled_plans=False, overlap=False, limit_binds=False, unsorted=False, long_durations=False):
     nm = draw(st.integers(2 if overlap else 1, 3 if few_machines else max_machines))
     hetero = draw(st.booleans())
     speeds = (1, 2, 5, 10, 20)
@@ -211,6 +211,8 @@ def scenarios(draw, *, max_machines=6, max_obs=4, max_nodes=6,
             demand = draw(st.integers(arrays // 2 + 1, arrays))
         else:
             duration = draw(st.integers(1, max_duration))
+            if long_durations and draw(st.integers(0, 2)) == 0:
+                duration = draw(st.sampled_from([12, 20, 33, 47]))     # sizes are generation bounds, not code limits
             rate = draw(st.sampled_from([1, 2, 3, 5, 10]))
             demand = draw(st.sampled_from([d for d in ((1, 2) if (overlap or limit_binds) else (1, 2, 4, 8)) if d <= arrays]))
         o = {"name": names[i], "start": t * u, "duration": duration * u, "demand": demand,
